@@ -33,6 +33,25 @@ impl Monitor for C13 {
                 }
             }
         }
+        // "the remaining validators" are read through the registry's query: that answer must be the stored set with the
+        // hub's real delegations (judged only when the raw decoder recognises the storage layout)
+        match &post.raw_registry {
+            Some(raw) if !(raw.is_empty() && !post.registry.is_empty()) => {
+                out.count("c13.registry_checked_against_storage");
+                let mut q: Vec<String> = post.registry.iter().map(|x| x.0.clone()).collect();
+                q.sort();
+                if &q != raw {
+                    out.violation(P, "registry_query_faithful", format!("GetValidatorsForDelegation lists {:?} but the registry stores {:?}", q, raw));
+                }
+                for (a, d) in post.registry.iter() {
+                    let real = post.delegations.get(a).cloned().unwrap_or(0);
+                    if *d != real {
+                        out.violation(P, "registry_query_faithful", format!("GetValidatorsForDelegation reports {} delegated to {} but the hub has {} there", d, a, real));
+                    }
+                }
+            }
+            _ => out.count("c13.raw_layout_unrecognised"),
+        }
         let (sender, v) = match c.op {
             Op::RemoveValidator { sender, validator } => (sender, validator),
             _ => return,
